@@ -379,3 +379,27 @@ Proof.
         -- subst kw. apply Hstep; try lia. unfold xr1. rewrite Ekw in Lr |- *. rewrite Lr. reflexivity.
         -- subst kw. apply Hstep; try lia. unfold xr1. rewrite Ekw in Lr |- *. rewrite Lr. reflexivity.
 Qed.
+
+(* ---------------------------------------------------------------- the comparisons read from the source *)
+Lemma gen_agrees : forall o,
+  (forall lo hi, gen_timerange_mask o lo hi = timerange_mask o lo hi)
+  /\ (forall lo hi, gen_freqrange_mask o lo hi = freqrange_mask o lo hi)
+  /\ Some (gen_auto_mask o) = corrprods_mask o VAuto /\ Some (gen_cross_mask o) = corrprods_mask o VCross
+  /\ (forall l, gen_ants_mask o l = ants_mask o l)
+  /\ (forall l, gen_inputs_mask o l = inputs_mask o l)
+  /\ (forall cp p q, gen_pol_keep cp p q = pitem_keep cp (PTwo p q)).
+Proof.
+  intro o. repeat split.
+  - intros lo hi. unfold gen_timerange_mask, timerange_mask. apply map_ext. intro d.
+    unfold gen_range_keep, range_bound.
+    change sel_timerange with [(0, ("Add", ((1, 2), "GtE"))); (1, ("Sub", ((1, 2), "LtE")))]%string.
+    cbn [forallb fst snd]. change (py_cmp "GtE" ?a ?b) with (b <=? a). change (py_cmp "LtE" ?a ?b) with (a <=? b).
+    cbn [Z.eqb String.eqb Ascii.eqb Bool.eqb]. rewrite andb_true_r.
+    replace (1 * (2 * o_half o) / 2) with (o_half o) by (rewrite Z.mul_1_l, Z.mul_comm, Z.div_mul; lia). reflexivity.
+  - intros lo hi. unfold gen_freqrange_mask, freqrange_mask. apply map_ext. intro f.
+    unfold gen_range_keep, range_bound.
+    change sel_freqrange with [(0, ("Add", ((1, 2), "GtE"))); (1, ("Sub", ((1, 2), "LtE")))]%string.
+    cbn [forallb fst snd]. change (py_cmp "GtE" ?a ?b) with (b <=? a). change (py_cmp "LtE" ?a ?b) with (a <=? b).
+    cbn [Z.eqb String.eqb Ascii.eqb Bool.eqb]. rewrite andb_true_r.
+    replace (1 * (2 * o_halfw o) / 2) with (o_halfw o) by (rewrite Z.mul_1_l, Z.mul_comm, Z.div_mul; lia). reflexivity.
+Qed.
